@@ -107,7 +107,7 @@ func checkCall(in *Inst, o *Outcome, cf *callFacts, call int, minSeq int, res *C
 		}
 	}
 	if firstFail != nil {
-		if o.Err != firstFail.Err {
+		if !sameErr(o.Err, firstFail.Err) {
 			res.violate("C04", "error-not-verbatim", fmt.Sprintf("f%d returned an error but Call returned %q", firstFail.Func, firstLine(errStr(o.Err))), detail())
 		}
 		if last := o.Events[len(o.Events)-1]; last != firstFail {
@@ -136,7 +136,7 @@ func checkCall(in *Inst, o *Outcome, cf *callFacts, call int, minSeq int, res *C
 func (w *World) onceErr(err error) bool {
 	w.mu.Lock()
 	defer w.mu.Unlock()
-	seq, ok := w.errs[err]
+	seq, ok := w.errs[errKey(err)]
 	if !ok {
 		return false
 	}
